@@ -1129,3 +1129,109 @@ def c08(tier):
     r.exhaustive = True
     r.assumptions = ["exhaustive refers to k for each scenario (kills land before libc calls of the copia process)", "a process kill cannot lose page-cache contents: 'flushed to stable storage' is decided as an ordering of observed fsync/rename calls, not as survival of a power cut", "directory syncs for data files are not demanded"]
     finish(r, tier)
+
+
+# ------------------------------------------------------------------ C15 (bisync dry-run part)
+ACTION_RE = re.compile(r"^(\S+(?:\([A-Za-z]+\))?)\s+(.*)$", re.S)
+
+
+def parse_dry_lines(stdout):
+    """`{:<22} {path}` lines; a path may contain newlines, so split on the known action words."""
+    acts = ["PropagateAtoB", "PropagateBtoA", "ConvergeIdentical", "DeleteA", "DeleteB", "Conflict(BothChanged)", "Conflict(DeleteVsModify)", "Noop"]
+    body = stdout
+    tail = "(dry run) nothing was modified\n"
+    if body.endswith(tail):
+        body = body[: -len(tail)]
+    # tokenise: every record starts at line start with an action padded to 22 columns + space
+    pat = re.compile(r"(?:^|(?<=\n))(%s) +" % "|".join(re.escape(a) for a in acts))
+    recs = []
+    ms = list(pat.finditer(body))
+    for i, m in enumerate(ms):
+        if len(m.group(0)) != max(22, len(m.group(1))) + 1:
+            continue
+        end = ms[i + 1].start() if i + 1 < len(ms) else len(body)
+        path = body[m.end():end]
+        if path.endswith("\n"):
+            path = path[:-1]
+        recs.append((m.group(1), path))
+    return recs
+
+
+def _c15b_worker(args):
+    seedv, lo, hi, wroot = args
+    res = {"evaluations": 0, "distinct": set(), "viol": [], "counters": {}, "samples": [], "inconclusive": 0}
+
+    def cnt(k, n=1):
+        res["counters"][k] = res["counters"].get(k, 0) + n
+
+    for idx in range(lo, hi):
+        hist = hist_for(seedv, idx, "c15b")
+        # no newline names here: the dry-run line format cannot delimit them unambiguously
+        hist = [st for st in hist if not (st[0] in ("w", "d") and "\n" in st[2])]
+        sb = Sandbox(os.path.join(wroot, "w%d" % lo))
+        for i, st in enumerate(hist):
+            if st[0] != "s":
+                apply_step(sb, st)
+                continue
+            pre = sb.snaps()
+            arch0 = sb.archive_listing()
+            home0 = snapshot(sb.home)
+            rd = bisync(sb, dry=True)
+            mid = sb.snaps()
+            res["evaluations"] += 1
+            label = {"history_index": idx, "step": i}
+            for s in "AB":
+                if set(pre[s]) != set(mid[s]) or any(pre[s][p] != mid[s][p] for p in pre[s]):
+                    res["viol"].append(("C15|bisync|dry-run-changed-tree", dict(label, side=s)))
+            if sb.archive_listing() != arch0 or snapshot(sb.home) != home0:
+                res["viol"].append(("C15|bisync|dry-run-changed-recorded-state", dict(label)))
+            if rd.code != 0:
+                res["viol"].append(("C15|bisync|dry-run-failed", dict(label, run=rd.brief())))
+            recs = parse_dry_lines(rd.stdout)
+            pcd = plan_counts(rd)
+            rr = bisync(sb)
+            post = sb.snaps()
+            note_losers(sb, mid, post)
+            pcr = plan_counts(rr)
+            if pcd != pcr:
+                res["viol"].append(("C15|bisync|dry-run-plan-line-differs-from-real-run", dict(label, dry=pcd, real=pcr)))
+            if pcd and len(recs) != pcd[0]:
+                res["viol"].append(("C15|bisync|dry-run-lines-differ-from-plan-count", dict(label, lines=len(recs), plan=pcd, stdout=rd.stdout[-300:])))
+            if completed(rr):
+                A0, B0 = content_map(pre["A"]), content_map(pre["B"])
+                A1, B1 = content_map(post["A"]), content_map(post["B"])
+                listed = set()
+                for act, p in recs:
+                    listed.add(p)
+                    ok = True
+                    if act == "PropagateAtoB":
+                        ok = B1.get(p) == A0.get(p) and A1.get(p) == A0.get(p)
+                    elif act == "PropagateBtoA":
+                        ok = A1.get(p) == B0.get(p) and B1.get(p) == B0.get(p)
+                    elif act == "DeleteA":
+                        ok = p not in A1
+                    elif act == "DeleteB":
+                        ok = p not in B1
+                    elif act == "Conflict(BothChanged)":
+                        ok = A0.get(p) in set(A1.values()) and A0.get(p) in set(B1.values()) and B0.get(p) in set(A1.values()) and B0.get(p) in set(B1.values())
+                        listed |= {q for q in set(A1) | set(B1) if q.startswith(p + ".conflict-")}
+                    elif act == "Conflict(DeleteVsModify)":
+                        surv = A0.get(p) or B0.get(p)
+                        ok = A1.get(p) == surv and B1.get(p) == surv
+                    elif act == "ConvergeIdentical":
+                        ok = A1.get(p) == A0.get(p) and B1.get(p) == B0.get(p)
+                    if not ok:
+                        res["viol"].append(("C15|bisync|announced-action-not-performed|" + act, dict(label, path=p)))
+                    cnt("actions_checked[%s]" % act)
+                for s, m0, m1 in (("A", A0, A1), ("B", B0, B1)):
+                    for p in set(m0) | set(m1):
+                        if p in listed or is_staging(p):
+                            continue
+                        if m0.get(p) != m1.get(p):
+                            res["viol"].append(("C15|bisync|real-run-changed-unannounced-path", dict(label, side=s, path=p)))
+                if recs:
+                    res["distinct"].add("bisync|" + ",".join(sorted({a for a, _ in recs})))
+            if len(res["samples"]) < 1 and recs:
+                res["samples"].append(dict(label, dry_lines=recs[:5]))
+        sb.destroy()
+    return res
